@@ -31,6 +31,9 @@ type Transport struct {
 	events datatransfer.EventsHandler
 	// errs maps a call kind to the error it returns (persistent until cleared)
 	errs map[string]error
+	// ErrFn, if set, decides the result of a call before errs is consulted
+	// (called under the lock; must not call back into the transport)
+	ErrFn func(TCall) error
 	// OnCall, if set, runs (outside the lock) before a call returns
 	OnCall func(TCall)
 	// shut is closed by Shutdown
@@ -48,6 +51,11 @@ func (t *Transport) rec(c TCall) error {
 	c.Seq = NextSeq()
 	t.mu.Lock()
 	c.Err = t.errs[c.Kind]
+	if t.ErrFn != nil {
+		if err := t.ErrFn(c); err != nil {
+			c.Err = err
+		}
+	}
 	t.calls = append(t.calls, c)
 	cb := t.OnCall
 	t.mu.Unlock()
@@ -55,6 +63,13 @@ func (t *Transport) rec(c TCall) error {
 		cb(c)
 	}
 	return c.Err
+}
+
+// SetErrFn installs a per-call result function.
+func (t *Transport) SetErrFn(f func(TCall) error) {
+	t.mu.Lock()
+	t.ErrFn = f
+	t.mu.Unlock()
 }
 
 // SetErr makes every later call of the kind return err (nil clears).
